@@ -43,6 +43,11 @@ PROPS["C14"] = {
     "design_ref": "DESIGN.md §6.6",
 }
 
+_PRINT_NOTE = "assumed: Formatter::write_str appends its argument; <char as Display>::fmt writes the char (no width flags); vstd specs for str::chars/Vec/Seq. The three recursive `impl .. for Value` dispatchers are outside Verus (cyclic trait dispatch) and are covered by the bounded stand-in only."
+PROPS["C08"] = {"units": ["print"], "kani": [], "replay": [], "title": "Compact output", "level": "proof",
+    "level_text": "string_literal is proved to emit exactly the RFC 8785 escaping of every string (all characters, all lengths); digit, the compact option record and the generic array/object emitters are proved per function.",
+    "level_note": _PRINT_NOTE, "design_ref": "DESIGN.md §6.3"}
+
 NOT_APPLICABLE = {
     "C16": "serde Serializer/Deserializer plumbing: every deciding fact (derive expansion, number formatting, serde_json's shape) lives in dependencies whose behaviour would be assumed; no contract within reach decides it (DESIGN.md §7)",
     "C17": "same as C16: the deciding case analysis is inside json-number's Serialize/Deserialize; the in-repo ingredient (duplicate keys collapse through Object::insert) is covered by C06 (DESIGN.md §7)",
